@@ -346,6 +346,18 @@ class FIXContainer:
         r += "|".join(allTags)
         return r
 
+    def _content(self) -> list:
+        """Tags and values in order, repeating groups as lists of items (for ==)."""
+        content = []
+        for tag, value in self.tags.items():
+            if isinstance(value, _FIXRepeatingGroupContainer):
+                value = [item._content() for item in value.groups]
+            elif _isclass(value) and issubclass(value, Exception):
+                # an error marker, whatever its class (rendered as #err#)
+                value = Exception
+            content.append((tag, value))
+        return content
+
     def __eq__(self, other: FIXContainer | dict) -> bool:
         """Equality checks.
 
@@ -359,9 +371,8 @@ class FIXContainer:
         Raises:
             FIXMessageError: group comparison not supported
         """
-        # if our string representation looks the same, the objects are equivalent
         if isinstance(other, FIXContainer):
-            return self.__str__() == other.__str__()
+            return self._content() == other._content()
         elif isinstance(other, dict):
             ignore_tags = {
                 FTag.BeginString,
